@@ -173,7 +173,14 @@ def suite_cases(start_id: int) -> list[dict]:
         v = val_of(e["value"]) if e["ev"] == "set" and isinstance(e.get("value"), str) else {"k": "int", "v": 0}
         if v.get("k") == "none":
             continue
-        op = {"f": e["ev"], "sel": np_[0], "path": np_[1], "v": v, "bad": "", "npath": e["npath"], "vtext": e.get("value", "")}
+        vt = e.get("value", "") if isinstance(e.get("value"), str) else ""
+        # a value text that is not exactly one well-formed expression is a malformed request (must be refused)
+        badv = ""
+        if e["ev"] == "set":
+            root_, _ = cst(vt)
+            if root_.has_error or len([c_ for c_ in root_.children if c_.type != "comment"]) != 1:
+                badv = "value:suite"
+        op = {"f": e["ev"], "sel": np_[0], "path": np_[1], "v": v, "bad": badv, "npath": e["npath"], "vtext": vt}
         step = {"res": e["res"], "cur": e["post"], "again": e["post"], "same_snap": True}
         if e["res"] == "ok":
             step["ret"] = e["post"]
